@@ -59,12 +59,31 @@ func propC26(e *Env) {
 			e.Probe("edit_refused_at_registration")
 			return 2
 		}
+		if e.Choose("gen", 4) == 0 {
+			e.Probe("edit_dangling_symlink")
+			return 3
+		}
 		return 1
+	}
+	// put creates or replaces the directory entry: a regular file with the source of (version, kind), or —
+	// kind 3 — a symlink whose target does not exist (what a deploy that swaps links leaves for a moment):
+	// the entry is there, it cannot be opened, so it is a load error and whatever ran before keeps running
+	put := func(name string, v, kind int) {
+		p := filepath.Join(dir, name)
+		if fi, err := os.Lstat(p); err == nil && fi.Mode()&os.ModeSymlink != 0 {
+			os.Remove(p)
+		}
+		if kind == 3 {
+			os.Remove(p)
+			os.Symlink(filepath.Join(dir, "gone", name), p)
+			return
+		}
+		os.WriteFile(p, []byte(c26Source(name, v, kind)), 0o644)
 	}
 	writeFile := func(name string, broken int) {
 		nextV[name]++
 		files[name] = &c26File{version: nextV[name], broken: broken}
-		os.WriteFile(filepath.Join(dir, name), []byte(c26Source(name, nextV[name], broken)), 0o644)
+		put(name, nextV[name], broken)
 	}
 	// initial content
 	for _, n := range names[:5] {
@@ -245,7 +264,7 @@ func propC26(e *Env) {
 				e.Probe("remove")
 			} else if f, ok := removed[n]; ok {
 				// the very same bytes come back under the same name
-				os.WriteFile(filepath.Join(dir, n), []byte(c26Source(n, f.version, f.broken)), 0o644)
+				put(n, f.version, f.broken)
 				files[n] = f
 				delete(removed, n)
 				desc = fmt.Sprintf("put back %s v%d unchanged", n, f.version)
@@ -275,7 +294,7 @@ func propC26(e *Env) {
 		case 6:
 			// same content rewritten (touch): nothing may change
 			if f, ok := files[n]; ok {
-				os.WriteFile(filepath.Join(dir, n), []byte(c26Source(n, f.version, f.broken)), 0o644)
+				put(n, f.version, f.broken)
 				desc = "touch " + n
 				e.Probe("touch")
 			} else {
